@@ -519,7 +519,7 @@ func Check(c *core.Ctx) (map[string]any, []string, error) {
 	nProg, maxInj, maxHP := 72, 60, 8
 	nEntry := 24 // programs started through each of the other classes of entry points (eval, call)
 	if c.Thorough() {
-		nProg, maxInj, maxHP, nEntry = 240, 300, 20, 48 // fitted: 400/400/40/100 did not finish in 50 min on the loaded machine
+		nProg, maxInj, maxHP, nEntry = 160, 120, 12, 40 // fitted: 400/400/40/100 did not finish in 50 min; 240/300/20/48 made a trace file TLC could not load (GC overhead limit)
 	}
 	if s := os.Getenv("VERIF_C18_PROGRAMS"); s != "" {
 		fmt.Sscan(s, &nProg)
